@@ -32,9 +32,9 @@ pub fn constants(
             location.clone(),
             rpl.backward()?
                 .into_iter()
-                .fold(Constants::new(), |c, location| {
-                    c.join(&constants[&location.into()])
-                }),
+                // predecessors unreachable from the entry have no state
+                .filter_map(|location| constants.get(&location.into()))
+                .fold(Constants::new(), |c, predecessor| c.join(predecessor)),
         );
     }
 
